@@ -554,8 +554,28 @@ func (x *Exec) mergeStates(ca *Term, a, b *State) (*State, bool) {
 		}
 		out.vars[k] = m
 	}
+	isRec := func(k string) bool { return strings.HasPrefix(k, "$arg") || strings.HasPrefix(k, "$res:") }
+	for k, vb := range b.ghosts {
+		// call records (see trace.go): an absent counter is zero, an absent
+		// last argument / result is unknown
+		if _, inA := a.ghosts[k]; !inA {
+			if sb, ok := vb.(Sc); ok {
+				if strings.HasPrefix(k, "$calls:") {
+					out.ghosts[k] = Sc{Ite(ca, x.ar.mathC(newBig(0)), sb.T)}
+				} else if isRec(k) {
+					out.ghosts[k] = Sc{Ite(ca, x.freshTerm("norec", sb.T.S), sb.T)}
+				}
+			}
+		}
+	}
 	for k, va := range a.ghosts {
 		vb, ok := b.ghosts[k]
+		if !ok && strings.HasPrefix(k, "$calls:") {
+			vb, ok = Sc{x.ar.mathC(newBig(0))}, true
+		}
+		if sa, isSc := va.(Sc); !ok && isSc && isRec(k) {
+			vb, ok = Sc{x.freshTerm("norec", sa.T.S)}, true
+		}
 		if !ok {
 			delete(out.ghosts, k)
 			continue
